@@ -15,6 +15,10 @@ FALSE = ("int", 0, "bool")
 UNIT = ("unit",)
 
 
+# external callees whose function-valued argument a rule set analyses by itself (pattern -> the rule that does)
+ANALYSED_SINKS = {r"^serial_core::SerialPort::reconfigure$": "C20.O1 runs the settings closure path by path and admits nothing but the five setters in it"}
+
+
 class Unsupported(Exception):
     """A construct outside the evaluator's recognised idioms (reported as UNPROVEN)."""
 
@@ -1599,6 +1603,11 @@ class Evaluator:
                 return self.call_fn(st, act, fj2, spread, dest, target, w)
         # 4. opaque effect
         self.stats["opaque_calls"].add(name)
+        for a in args:
+            bad = [] if any(re.search(pat, name) for pat in ANALYSED_SINKS) else self.effectful_fn_values(st, a)
+            if bad:
+                # the callee may invoke it any number of times (or never): what it does cannot be placed on the path
+                raise Unsupported("%s receives the function value %s, which has effects (%s), and is not modelled" % (name, bad[0][0].split("::", 1)[-1], bad[0][1]))
         if target is None:
             st.emit(("panic", name, tuple(args), w))
             return [Path("panic", None, st, name)]
@@ -1624,6 +1633,82 @@ class Evaluator:
                 else:
                     self.store(st, a[1], hv, w)
         return self.finish_call(st, act, dest, target, rv, w)
+
+    # ---- effects of function values handed to code the evaluator does not follow -------------
+    EFFECT_RE = re.compile(r"RefCell|cell::Cell|borrow_mut|::io::|thread::|::sync::|process_message|serial|::write|::read|flush|::set_|::replace|::take$|::swap")
+
+    def static_effects(self, path, depth=0, seen=None):
+        """why calling the function `path` may do more than compute its result (writes through a reference, I/O, a call that
+        cannot be followed), or None when every path through it and its callees is free of such effects"""
+        cache = self.__dict__.setdefault("_effects", {})
+        if path in cache:
+            return cache[path]
+        seen = seen if seen is not None else set()
+        if path in seen:
+            return None
+        seen.add(path)
+        fn = self.prog.fns.get(path)
+        if fn is None or fn.get("body") is None:
+            return "no body for %s" % path
+        if depth > 8:
+            return "call depth"
+        why = None
+        for b in fn["body"]["blocks"]:
+            if b.get("cleanup"):
+                continue
+            for s_ in b["stmts"]:
+                if s_.get("st") != "assign":
+                    continue
+                if any(e.get("k") == "deref" for e in s_["place"]["proj"]):
+                    why = "%s writes through a reference" % fn["name"]
+                rv = s_["rvalue"]
+                if rv.get("rv") == "ref" and rv.get("mut") and any(e.get("k") == "deref" for e in rv["place"]["proj"]):
+                    why = "%s reborrows a reference mutably" % fn["name"]
+            t = b["term"]
+            if t["t"] == "call":
+                f = t["func"]
+                fj = f.get("fn") if f.get("op") == "const" else None
+                if fj is None:
+                    why = "indirect call in %s" % fn["name"]
+                else:
+                    r = fj.get("resolved") or fj
+                    if r["path"] in self.prog.fns:
+                        why = why or self.static_effects(r["path"], depth + 1, seen)
+                    elif self.EFFECT_RE.search(r["name"]) or not any(pat.search(r["name"]) for pat, _, _ in self.models.table):
+                        why = "%s calls %s" % (fn["name"], r["name"])
+            if why:
+                break
+        cache[path] = why
+        return why
+
+    def effectful_fn_values(self, st, v, depth=0, out=None, seen=None):
+        """function values (closures, function items of the workspace) reachable in term `v` whose invocation may have effects"""
+        out = out if out is not None else []
+        seen = seen if seen is not None else set()
+        if not isinstance(v, tuple) or depth > 12 or id(v) in seen:
+            return out
+        seen.add(id(v))
+        if v and v[0] == "closure" and v[1] in self.prog.fns:
+            why = self.static_effects(v[1])
+            if why:
+                out.append((v[1], why))
+        elif v and v[0] == "fn" and isinstance(v[1], tuple):
+            fj = self.fnrefs.get(v[1])
+            r = (fj.get("resolved") or fj) if fj else None
+            if r and r["path"] in self.prog.fns:
+                why = self.static_effects(r["path"])
+                if why:
+                    out.append((r["path"], why))
+        elif v and v[0] == "ref" and isinstance(v[1], tuple) and v[1] and v[1][0] in ("loc", "heap", "val"):
+            try:
+                self.effectful_fn_values(st, self.load(st, v[1]), depth + 1, out, seen)
+            except Exception:
+                pass
+            return out
+        for x in v:
+            if isinstance(x, tuple):
+                self.effectful_fn_values(st, x, depth + 1, out, seen)
+        return out
 
     def apply_multi(self, ci, st, res):
         """('multi', [(closure-outcome state, kind, value)]): one continuation per outcome of a closure the model ran"""
